@@ -328,6 +328,19 @@ def load_model(model_folder: str, model_name: str, compiler_options: Dict[str, s
                 raise InvalidCacheError("Cache generated for incompatible CasADi version")
             else:
                 raise
+        except (
+            pickle.UnpicklingError,
+            EOFError,
+            AttributeError,
+            ImportError,
+            IndexError,
+            KeyError,
+            TypeError,
+            ValueError,
+        ):
+            # An empty, truncated or partially written cache file, e.g. left by
+            # an interrupted save_model or seen while another process is writing it.
+            raise InvalidCacheError("Cache file is incomplete or corrupt")
 
         if db["version"] != __version__:
             raise InvalidCacheError("Cache generated for a different version of pymoca")
